@@ -13,10 +13,20 @@ import (
 	posTypes "github.com/pokt-network/posmint/x/pos/types"
 )
 
+// DustDenom is a second denomination some accounts hold (fees must still be paid in the stake denom).
+const DustDenom = "dust"
+
 func isMultiType(t string) bool { return t == "multi2" || t == "multi3" || t == "nested" }
 
 // EffectiveBalance: multisig accounts cannot appear in the genesis file (auth's
 // genesis validation refuses keys without a consensus form), so they start empty.
+func (g *Genesis) EffectiveDust(i int) int64 {
+	if i >= len(g.Dust) || (i < len(g.KeyTypes) && isMultiType(g.KeyTypes[i])) {
+		return 0
+	}
+	return g.Dust[i]
+}
+
 func (g *Genesis) EffectiveBalance(i int) int64 {
 	if i < len(g.KeyTypes) && isMultiType(g.KeyTypes[i]) {
 		return 0
@@ -29,6 +39,7 @@ func BuildInitChain(kr *Keyring, g *Genesis) abci.RequestInitChain {
 	// ---- auth
 	var accounts authTypes.Accounts
 	total := sdk.ZeroInt()
+	dustTotal := sdk.ZeroInt()
 	for i := range g.Balances {
 		if i < len(g.KeyTypes) && isMultiType(g.KeyTypes[i]) {
 			continue
@@ -37,6 +48,10 @@ func BuildInitChain(kr *Keyring, g *Genesis) abci.RequestInitChain {
 		coins := sdk.NewCoins()
 		if g.Balances[i] > 0 {
 			coins = sdk.NewCoins(sdk.NewCoin(sdk.DefaultStakeDenom, sdk.NewInt(g.Balances[i])))
+		}
+		if i < len(g.Dust) && g.Dust[i] > 0 {
+			coins = coins.Add(sdk.NewCoins(sdk.NewCoin(DustDenom, sdk.NewInt(g.Dust[i]))))
+			dustTotal = dustTotal.Add(sdk.NewInt(g.Dust[i]))
 		}
 		accounts = append(accounts, &authTypes.BaseAccount{Address: a.Addr, Coins: coins, PubKey: a.Pub})
 		total = total.Add(sdk.NewInt(g.Balances[i]))
@@ -57,6 +72,9 @@ func BuildInitChain(kr *Keyring, g *Genesis) abci.RequestInitChain {
 	if !g.NoSupply {
 		// a consistent genesis declares the supply: liquid balances + staked tokens (the DAO mint adds itself)
 		ag.Supply = sdk.NewCoins(sdk.NewCoin(sdk.DefaultStakeDenom, total))
+		if dustTotal.IsPositive() {
+			ag.Supply = ag.Supply.Add(sdk.NewCoins(sdk.NewCoin(DustDenom, dustTotal)))
+		}
 	}
 	pg := posTypes.GenesisState{
 		Params:           posTypes.DefaultParams(),
